@@ -48,7 +48,14 @@ def _cases(draw):
     desc = gen_schema(d, input_heavy=True, defaults=0.45, mutation=False, max_types=6)
     # every input type gets its own probe field + operation
     probes = []
-    for i, name in enumerate(desc.inputs):
+    probed = list(desc.inputs)
+    prune = len(probed) >= 2 and d.bool(0.3)
+    if prune:
+        # only SOME inputs are used by operations and the unused ones (and the enums only they need) are pruned:
+        # whatever the used inputs need has to survive
+        probed = d.sample(probed, d.int(1, len(probed) - 1))
+        d.tag("cfg.prune_unused_inputs")
+    for i, name in enumerate(probed):
         wrapper = d.choice(["{}", "{}!", "[{}]", "[{}!]"])
         desc.objects[desc.query]["fields"].append({"name": f"probe{i}", "type": "Int", "args": [("v", wrapper.format(name), None)]})
         probes.append((i, name, wrapper.format(name)))
@@ -64,6 +71,9 @@ def _cases(draw):
     for _i, name, _t in probes:
         values[name] = [gen_value(d, desc, name + "!", ctx="val") for _ in range(12)]
     cfg = base_config(d, otel=False)
+    if prune:
+        cfg["include_all_inputs"] = False
+        cfg["include_all_enums"] = False
     return {
         "sdl": sdl, "queries": queries, "config": cfg, "probes": probes, "values": values,
         "desc": {"enums": desc.enums, "inputs": {k: [list(f) for f in v] for k, v in desc.inputs.items()}, "scalars": desc.scalars},
